@@ -78,10 +78,10 @@ type Case struct {
 	RealmCtx bool     `json:"realm_ctx,omitempty"` // register with BasicAuthRealmCtx instead of BasicAuthRealm
 	AuthErr  string   `json:"auth_err,omitempty"`  // what the credential check returns for bad credentials: unauth | plain | forbidden
 	// LateResponder: the API's error responder is installed after the handler has been built.
-	LateResponder bool  `json:"late_responder,omitempty"`
+	LateResponder bool `json:"late_responder,omitempty"`
 	// SharedResults: the handlers return the same middleware.Error / NotImplemented value for every request that asks
 	// for it (a package-level "not implemented yet" responder), instead of a fresh one per request.
-	SharedResults bool `json:"shared_results,omitempty"`
+	SharedResults bool  `json:"shared_results,omitempty"`
 	Ops           []Op  `json:"ops"`
 	Reqs          []Req `json:"reqs"`
 }
